@@ -44,6 +44,9 @@ type R struct{ s uint64 }
 
 func New(seed uint64) *R { return &R{s: seed} }
 
+// Fork derives an independent stream from the current state without consuming a draw.
+func (r *R) Fork(name string) *R { return New(H(r.s, HashStr(name))) }
+
 func (r *R) U64() uint64 {
 	r.s += 0x9e3779b97f4a7c15
 	x := r.s
